@@ -287,6 +287,7 @@ def main(argv=None):
     a = ap.parse_args(argv)
     seed = int(os.environ.get("VERIF_SEED", "0") or 0)
     pid = a.pid.upper()
+    os.environ["KNEE_CHECK_ID"] = pid
     ctx = Ctx(pid, a.tier, seed)
     status = "ok"
     rc = 0
